@@ -1639,6 +1639,18 @@ where
                     // CopyDone or CopyFail
                     // Copy is done, successfully or not.
                     'c' | 'f' => {
+                        // Outside COPY mode PostgreSQL drops these messages (and CopyData) and
+                        // sends no reply: waiting for one would pin the server to this client for ever.
+                        if !server.in_copy_mode() {
+                            self.buffer.clear();
+
+                            if !server.in_transaction() && self.transaction_mode {
+                                break;
+                            }
+
+                            continue;
+                        }
+
                         // We may already have some copy data in the buffer, add this message to buffer
                         self.buffer.put(&message[..]);
 
